@@ -321,6 +321,16 @@ def worker(kp, job):
             for _ in range(rng.randint(1, 3)):
                 rows.insert(rng.randrange(len(rows) + 1), '')
             text = g.nl.join(rows)
+        if rng.random() < 0.25:
+            # a line made only of tabs: NOT a blank line - as many empty cells as the line above has cells, one stage,
+            # one (error) node per cell
+            rows = text.split(g.nl)
+            cand = [k for k, r in enumerate(rows) if '\t' in r and not r.startswith('!!') and not r.startswith('**')
+                    and not any(c in engine.SPINE_OPS for c in r.split('\t'))]
+            if cand:
+                k = rng.choice(cand)
+                rows.insert(k + 1, '\t' * rows[k].count('\t'))
+                text = g.nl.join(rows)
         viol, doc, dump = check_tree(kp, text, 'generated')
         bad = docs.bad_cells(kp, text)
         if idx % 2 == 0:
@@ -381,7 +391,7 @@ def run(chk):
                 'thorough tier; quick keeps all of depth <= 2 and a seeded third of depth 3), random MIXED operator rows (several join '
                 'groups, splits and terminators on one line; depth <= 6, width <= 8), EVERY operator row with a join group over 4 and 5 '
                 '(6 in the thorough tier) sub-spines of one spine, literal cells (quotes, commas, '
-                'spaces, non-ASCII, separators), blank lines (leading, interior, trailing), rows with surplus cells / after the last terminator, and generated '
+                'spaces, non-ASCII, separators), blank lines (leading, interior, trailing), lines made only of tabs, rows with surplus cells / after the last terminator, and generated '
                 'documents with literal cells injected; non-trivial = distinct text')
     results = engine.pmap(worker, jobs)
     engine.settle(chk, results, model)
